@@ -1064,6 +1064,24 @@ def union_mask(snap, n):
     return [z3.Or(*[m[i] for m in ms]) if ms else z3.BoolVal(False) for i in range(n)]
 
 
+def inputs_unchanged_obs(run):
+    """every claim about a command's result presupposes that the command left its inputs alone (other commands read the
+    same arrays): missing cells and non-missing values of every input are the same after the run"""
+    obs = []
+    if run.outcome != 'ok':
+        return obs
+    for k_, ((d0, m0, rep0, summ0), (d2, m2, rep2, summ2)) in enumerate(zip(run.before, run.after)):
+        if len(d0) != len(d2):
+            continue
+        mb = m0 if m0 is not None else [z3.BoolVal(False)] * len(d0)
+        for i in range(len(d0)):
+            obs.append(term_ob('input %d cell %d: missing before <=> missing after' % (k_, i), run.pam[k_][i] == mb[i], group='input-mask'))
+            diff = run.pad[k_][i] - d0[i]
+            obs.append(term_ob('input %d cell %d: non-missing value unchanged' % (k_, i), z3.Or(mb[i], run.pad[k_][i] == d0[i]), group='input-value',
+                               neg=z3.And(z3.Not(mb[i]), z3.Or(diff > R_MARGIN, -diff > R_MARGIN))))
+    return obs
+
+
 def oracle_obligations(spec, kw, snap, run, want=('mask', 'value', 'kind', 'type', 'shape'), in_shape=None):
     """obligations of one run against the reference semantics (templates over the run's placeholders)"""
     from . import oracle
@@ -1100,17 +1118,7 @@ def oracle_obligations(spec, kw, snap, run, want=('mask', 'value', 'kind', 'type
             margin = z3.And(z3.Not(run.pm[i]), z3.Or(run.pd[i] - ref['vals'][i] > R_MARGIN, ref['vals'][i] - run.pd[i] > R_MARGIN))
             obs.append(term_ob('cell %d: value == reference' % i, wrap(z3.Or(run.pm[i], run.pd[i] == ref['vals'][i])), group='value',
                                neg=(z3.And(pre, margin) if pre is not None else margin)))
-    # every claim about a command's result presupposes that the command left its inputs alone (other commands read the
-    # same arrays): missing cells and non-missing values of every input are the same after the run
-    for k_, ((d0, m0, rep0, summ0), (d2, m2, rep2, summ2)) in enumerate(zip(run.before, run.after)):
-        if len(d0) != len(d2):
-            continue
-        mb = m0 if m0 is not None else [z3.BoolVal(False)] * len(d0)
-        for i in range(len(d0)):
-            obs.append(term_ob('input %d cell %d: missing before <=> missing after' % (k_, i), run.pam[k_][i] == mb[i], group='input-mask'))
-            diff = run.pad[k_][i] - d0[i]
-            obs.append(term_ob('input %d cell %d: non-missing value unchanged' % (k_, i), z3.Or(mb[i], run.pad[k_][i] == d0[i]), group='input-value',
-                               neg=z3.And(z3.Not(mb[i]), z3.Or(diff > R_MARGIN, -diff > R_MARGIN))))
+    obs += inputs_unchanged_obs(run)
     if 'kind' in want and not any(s_[2] == 'u' for s_ in snap):
         # (for unsigned inputs only the values are claimed: the property does not say which integer type comes back)
         ek = oracle.expected_kind(spec.name, ref['kind'], [s[2] for s in snap], params)
